@@ -92,3 +92,10 @@ claim('C14',
       'variants are built only at reviewed sites, peek loops make progress. Termination in general, stack depth and dependency panics '
       'are not decided.',
       'call-graph reachability census with reviewed triage tables + guard-polarity dominance')
+claim('C15',
+      'Decides totality ingredients and literal tables, not the digit semantics of std/num parsers: the panic/arithmetic census '
+      'restricted to the lexer/parser closure (reviewed table, unlisted site => violation), Invalid tokens built only by the lexer and '
+      'tokens read only through get(), progress of every lexer peek loop and (thorough) of every parser loop via a consuming-on-Ok least '
+      'fixed point over the recursive-descent methods, and the literal tables (radix prefixes, NrDIGITS bounds, base-64 alphabet, escapes, '
+      'suffixes) extracted from HIR patterns.',
+      'census over the front-end call closure + CFG progress analysis + literal tables from HIR patterns')
